@@ -23,6 +23,7 @@ type LayoutCfg struct {
 	NotationsIface bool
 	SameNames      bool // same method name + same :recv identifier under different receiver types (C17)
 	EmptyIface     bool // converter interfaces without any method (placeholder, all methods commented out)
+	LineDirective  bool // a //line directive in front of the package clause (files rendered by a preprocessor)
 }
 
 // LayoutGen generates one layout scenario.
@@ -167,6 +168,10 @@ func GenLayout(r *rand.Rand, cfg LayoutCfg, id, pkgRel string) *Scenario {
 		g.sb.WriteString("//go:build convergen\n//+build convergen\n\n")
 	}
 	g.vec = append(g.vec, fmt.Sprintf("bv%d", bv))
+	if cfg.LineDirective && g.chance(0.08) {
+		g.sb.WriteString([]string{"//line setup.go:1", "//line setup.go:100", "//line setup.y:10", "//line gen/setup.tmpl:7:3"}[r.Intn(4)] + "\n\n")
+		g.vec = append(g.vec, "line-directive")
+	}
 	if cfg.Comments && g.chance(0.3) {
 		fmt.Fprintf(&g.sb, "// %s\n\n", g.c("detached header comment"))
 	}
@@ -348,7 +353,12 @@ func GenLayout(r *rand.Rand, cfg LayoutCfg, id, pkgRel string) *Scenario {
 			}
 			if !oneLine && !shared {
 				if cfg.Comments && g.chance(0.4) {
-					m.DocLines = append(m.DocLines, "// "+g.c("method doc "+m.Name))
+					if g.chance(0.12) {
+						// a general comment over several lines is a doc comment like any other
+						m.DocLines = append(m.DocLines, "/*\n\t\t"+g.c("method doc "+m.Name)+"\n\t\tits second line.\n\t*/")
+					} else {
+						m.DocLines = append(m.DocLines, "// "+g.c("method doc "+m.Name))
+					}
 				}
 				if g.chance(0.3) {
 					nn := [][]string{{"typecast"}, {"getter"}, {"stringer"}, {"case:off"}, {"skip", "X"}, {"skip", "/^X$/"}, {"map", "X", "X"}, {"literal", "X", "7"}, {"match", "none"}, {"style", "arg"}, {"recv", "r"}}[r.Intn(11)]
@@ -364,7 +374,25 @@ func GenLayout(r *rand.Rand, cfg LayoutCfg, id, pkgRel string) *Scenario {
 					// a compiler directive in the method comment is a non-notation line like any other
 					m.DocLines = append(m.DocLines, []string{"//go:noinline", "//go:nosplit", "//nolint:all"}[r.Intn(3)])
 				}
-				if len(m.DocLines) > 0 && len(m.Notations) > 0 {
+				if len(m.DocLines) > 0 && len(m.Notations) == 1 && g.chance(0.4) {
+					// a second notation line, with prose BETWEEN the two (below)
+					n2 := [][]string{{"typecast"}, {"getter"}, {"stringer"}, {"case:off"}, {"skip", "/^Zz$/"}, {"skip", "Nope"}}[r.Intn(6)]
+					if n2[0] != m.Notations[0].Name {
+						m.Notations = append(m.Notations, Notation{Name: n2[0], Args: n2[1:]})
+					}
+				}
+				if len(m.DocLines) > 0 && len(m.Notations) == 2 {
+					m.DocOrder = []string{"n0", "d0", "n1"}
+					if r.Intn(2) == 0 {
+						m.DocOrder = []string{"d0", "n0"}
+						if len(m.DocLines) > 1 {
+							m.DocOrder = append(m.DocOrder, "d1")
+						}
+						m.DocOrder = append(m.DocOrder, "n1")
+					} else if len(m.DocLines) > 1 {
+						m.DocOrder = append(m.DocOrder, "d1")
+					}
+				} else if len(m.DocLines) > 0 && len(m.Notations) > 0 {
 					// interleave
 					switch r.Intn(3) {
 					case 0:
@@ -429,6 +457,22 @@ func GenLayout(r *rand.Rand, cfg LayoutCfg, id, pkgRel string) *Scenario {
 		for k := r.Intn(3); k > 0; k-- {
 			g.blank()
 			g.surround()
+		}
+	}
+	if cfg.Surround && s.InConv && g.chance(0.12) {
+		// a declaration of the setup file that USES a function yet to be generated (a helper calling
+		// the element converter): the setup file does not type-check on its own, the output does
+		var plain []*Method
+		for _, it := range s.Ifaces {
+			for _, m := range it.Methods {
+				if _, isRecv := m.Get("recv"); it.Converter && !isRecv {
+					plain = append(plain, m)
+				}
+			}
+		}
+		if len(plain) > 0 {
+			fmt.Fprintf(&g.sb, "\nvar %s = %s\n", g.name("useGenerated"), plain[r.Intn(len(plain))].Name)
+			g.vec = append(g.vec, "uses-generated")
 		}
 	}
 	// operand types: in the setup file (carried over) or in a sibling file
